@@ -6,7 +6,7 @@ import re, sys
 E = {
  "C01": ("declaration atoms (20 type-spec classes (old-style selectors with blanks, a literal inside a kind) x attribute sets x entity-decl forms x 4 host scopes, two-literal declarations); all sequences of <=2/3 of 14 specification items x <=1/2 of 9 procedure shapes (incl. prefix-typed results with attribute statements beside implicit dummies) x 4 unit kinds; executable look-alikes incl. variables named like whole keywords; <=3 program units per file (block data, nested submodules both name orders); INCLUDE-is-transparent family (same-named include files in two directories, 5 spellings); each x every <=1/2 non-default spelling choices (keyword / identifier case, END forms incl. labelled, `::`, attribute as statement, kind spellings, blanks, byte-order mark)",
          "expected canonical tree computed from the abstract model; FORD must not fail"),
- "C02": ("(1) BFS over all sequences of <=4/5 physical lines from 37 shapes (incl. `!*` / `!|` blocks, indented `#` lines), exact product-state de-duplication; (2) all sequences of <=4/5 tokens over 27 tokens; (3) ordered pairs / triples of 16 literals in a declaration + PRINT + CALL, `lower` off/on, 9..23 literals in one statement; (4) 7x3 quote-rich documentation texts at 13 positions of a module",
+ "C02": ("(1) BFS over all sequences of <=4/5 physical lines from 37 shapes (incl. `!*` / `!\\|` blocks, indented `#` lines), exact product-state de-duplication; (2) all sequences of <=4/5 tokens over 27 tokens; (3) ordered pairs / triples of 16 literals in a declaration + PRINT + CALL, `lower` off/on, 9..23 literals in one statement; (4) 7x3 quote-rich documentation texts at 13 positions of a module",
          "reference free-form lexer; literal and documentation text verbatim; no spurious entity / call"),
  "C03": ("40 documentable statements: all-in-one-style x 4 marker sets (also with the specification part moved to an include file); every source-adjacent pair x 4x4 styles x inline / own-line x separators; singles; in-comment gaps; all sequences of <=3/4 of 19 doc-block kinds through the real MetaMarkdown; first-block family; 13 metadata keys x 16 entity kinds (summary also as rendered); rendered-pages family; comments of page-less procedures shown on other pages (6 entities x 3 display settings)",
          "tracer words: each entity's doc == its own words; visible text has every word once, in order; no foreign footnote"),
